@@ -30,6 +30,11 @@ func (r *rec) Header() http.Header {
 
 // patchHandlerFunc returns an MPD patch
 func (s *Server) patchHandlerFunc(w http.ResponseWriter, r *http.Request) {
+	if !strings.HasSuffix(r.URL.Path, ".mpp") {
+		// Anything else would be served by the livesim handler, which e.g. needs a flushable writer for chunked segments
+		http.Error(w, "patch request must be for an .mpp document", http.StatusBadRequest)
+		return
+	}
 	origQuery := r.URL.RawQuery
 	q := r.URL.Query()
 	publishTime := q.Get("publishTime")
